@@ -47,6 +47,8 @@ def run(ctx):
     ctx.expect_count('R3', 'sibling import_token implementations', len(facts), 6)
     r_dyn(ctx)
     r4_dispatch(ctx)
+    r7_document_dispatch(ctx)
+    r8_input_validation(ctx)
     shared.whole_cell_consumption(ctx, 'R5')
     from .. import regen
     regen.check(ctx, 'R6')
@@ -293,3 +295,97 @@ def r4_dispatch(ctx):
     b = ctx.prog.resolve(ctx.prog.module('kernpy'), 'createImporter')
     ctx.check(b is not None and b.kind == 'def' and b.value is fi, 'R4', fi.loc, 'kernpy.createImporter',
               'public-reexport:createImporter', 'kernpy.createImporter is importer_factory.createImporter')
+
+
+def r7_document_dispatch(ctx):
+    """At document level every ordinary cell is imported by the importer of ITS OWN spine header, on every occurrence:
+    the token of a cell comes from importer.import_token(cell) (or is the ErrorToken of the handler), with
+    importer = importers[header text of the cell's parent]; importers are created by createImporter(header text)."""
+    run_ = ctx.prog.func(f'{N.IMPORTER}.Importer.run')
+    loops = [n for n in walk_local(run_.node) if isinstance(n, ast.For) and 'enumerate(row)' in src(n.iter)]
+    ctx.expect_count('R7', 'column loop', len(loops), 1)
+    lp = loops[0]
+    iv, cv = (e.id for e in lp.target.elts)
+    adds = [c for c in ast.walk(lp) if isinstance(c, ast.Call) and isinstance(c.func, ast.Attribute) and c.func.attr == 'add_node']
+    add = ctx.prog.func(f'{N.DOCUMENT}.MultistageTree.add_node')
+    tokvars = {src(F.bind_args(c, add, True).get('token')) for c in adds}
+    ctx.check(len(tokvars) == 1, 'R7', run_.loc, run_.qualname, 'node-token-variable', 'one token variable feeds add_node')
+    tokvar = next(iter(tokvars)) if tokvars else None
+    sources = []
+    for n in ast.walk(lp):
+        if isinstance(n, ast.Assign) and any(F.is_name(t, tokvar) for t in n.targets):
+            sources.append(n)
+    allowed = 0
+    et = ctx.prog.cls(f'{N.TOKENS}.ErrorToken')
+    for a in sources:
+        v = a.value
+        at = f'{run_.module.relpath}:{a.lineno}'
+        if isinstance(v, ast.Call) and isinstance(v.func, ast.Attribute) and v.func.attr == 'import_token':
+            allowed += 1
+            imp_var = src(v.func.value)
+            ok_arg = len(v.args) == 1 and F.is_name(v.args[0], cv)
+            imp_assigns = [src(x.value) for x in ast.walk(lp) if isinstance(x, ast.Assign) and any(src(t) == imp_var for t in x.targets)]
+            ok_imp = imp_assigns == ['self._importers.get(parent.header_node.token.encoding)']
+            par = [src(x.value) for x in ast.walk(lp) if isinstance(x, ast.Assign) and any(F.is_name(t, 'parent') for t in x.targets)]
+            ok_par = set(par) == {f'self._prev_stage_parents[{iv}]'}
+            ctx.check(ok_arg and ok_imp and ok_par, 'R7', at, run_.qualname, 'cell-importer-is-own-header',
+                      'a cell is parsed by importers[header text of its own spine path] with the raw cell text',
+                      f'the cell is parsed by `{imp_assigns}` with `{src(v)[:60]}` (parent {par})')
+        elif isinstance(v, ast.Call) and F.constructed_class(ctx, v, run_) is not None and \
+                F.constructed_class(ctx, v, run_).name in ('ErrorToken', 'FieldCommentToken'):
+            allowed += 1
+        else:
+            ctx.violation('R7', at, run_.qualname, 'token-from-other-source',
+                          f'`{src(a)[:90]}`: the token of a cell does not come from the importer of its own spine (nor is it the error / '
+                          f'comment token of that cell): a token parsed for another cell - possibly under another spine type - is reused, '
+                          f'so the category of a cell depends on what was seen before in that column')
+    ctx.expect_count('R7', 'token sources in the column loop', allowed, 3)
+    hdr = ctx.prog.func(f'{N.IMPORTER}.Importer._compute_header_token')
+    cc = hdr.params[2]
+    stores = [src(n) for n in walk_local(hdr.node) if isinstance(n, ast.Assign) and src(n.targets[0]).startswith('self._importers[')]
+    created = [src(n.value) for n in walk_local(hdr.node) if isinstance(n, ast.Assign) and isinstance(n.value, ast.Call)
+               and src(n.value.func) == 'createImporter']
+    ctx.check(stores == [f'self._importers[{cc}] = importer'] and created == [f'createImporter({cc})'], 'R7', hdr.loc, hdr.qualname,
+              'importers-keyed-by-header', 'importers are created by createImporter(header text) and stored under that header text',
+              f'importer table: {stores}, created by {created}')
+
+
+def r8_input_validation(ctx):
+    """Import never fails for a non-empty string: the shared input validation may raise only for None, a non-string and ''."""
+    f = ctx.prog.func(f'{N.SPINE_IMP}.SpineImporter._raise_error_if_wrong_input')
+    p = f.params[1]
+    naming = {f'{p} is None': 'none', f'isinstance({p}, str)': 'str', f"'' == {p}": 'empty'}
+    bad = []
+    unknown = set()
+    import itertools
+    sps = symex.func_sym_paths(f)
+    for bits in itertools.product([False, True], repeat=3):
+        v = dict(zip(['none', 'str', 'empty'], bits))
+        if v['none'] and (v['str'] or v['empty']):
+            continue
+        if v['empty'] and not v['str']:
+            continue
+        taken = []
+        for sp in sps:
+            fm = sp.condition()
+            ats = G.atoms_of(fm)
+            for a in ats:
+                if a not in naming:
+                    unknown.add(a)
+            if G.evaluate(fm, {a: v.get(naming.get(a, ''), False) for a in ats}):
+                taken.append(sp)
+        raises = any(sp.end == 'raise' for sp in taken)
+        should = v['none'] or not v['str'] or v['empty']
+        if raises != should:
+            bad.append(v)
+    ctx.check(not bad and not unknown, 'R8', f.loc, f.qualname, 'input-validation-table',
+              "the input validation rejects exactly None, non-strings and the empty string: every other cell text is imported",
+              f'the input validation also depends on {sorted(unknown)}: some non-empty cell texts (e.g. blanks) make import_token '
+              f'raise outside the catch-all, so the cell becomes an error instead of a token of the spine\'s own category'
+              if unknown else f'the input validation is wrong for {bad[:2]}')
+    # every sibling calls it outside the try, first
+    for qn in SIBLINGS:
+        it = ctx.prog.cls(qn).methods['import_token']
+        body = [s for s in it.body if not (isinstance(s, ast.Expr) and isinstance(s.value, ast.Constant))]
+        ok = body and isinstance(body[0], ast.Expr) and src(body[0].value) == f'self._raise_error_if_wrong_input({it.params[1]})'
+        ctx.check(ok, 'R8', it.loc, it.qualname, 'validation-first', 'the shared input validation is the first statement')
